@@ -39,6 +39,9 @@ def main(prop, path):
             tp, tb = proto.execute(binary, wd, "replay", sc)
             rows = read_ndjson(tp)
             res = proto.judge(prop, wd, "replay", tp, tb, kfs)
+        elif kind == "relay":
+            import relay
+            rows, res = relay.replay(prop, wd, r, binary)
         else:
             # sampled function-level checks: the same seed regenerates the same inputs
             seed = os.path.basename(path).split("-")[1] if "-" in os.path.basename(path) else "1"
